@@ -224,6 +224,8 @@ type Variant struct {
 	PendingQ []*StreamEv
 	// counts
 	Gets int
+	// Ver counts the mutations applied to Actual, AnnVer those reflected in Announced
+	Ver, AnnVer int
 }
 
 // Res is everything the service knows about one resource name.
@@ -282,6 +284,10 @@ type TokenRec struct {
 type ResetRec struct {
 	Resources, Access []string
 	Step, Cut         int
+	Dlv               bool
+	DlvSeq            uint64
+	Quiet             bool            // delivered with nothing in flight and nothing parked
+	Must              map[string]bool // name?query that must be re-fetched
 }
 
 func newWorld(s *Sim) *World {
